@@ -127,7 +127,7 @@ pub fn record(seed: u64, tier: &str, out: &str) {
               -(f80::from(f64::MIN_POSITIVE) / f80::from(3.0))] {
         cmpvals.push(x);
     }
-    let step = if thorough { 1 } else { 2 };
+    let step = if thorough { 2 } else { 2 };
     let special = cmpvals[..6].to_vec(); // 0, -0, 1, -1, 2, 0.5: always against everything
     for (i, x) in cmpvals.iter().enumerate() {
         let ys: Vec<f80> = if i < 6 { cmpvals.clone() } else { special.iter().cloned().chain(cmpvals.iter().skip(i % step).step_by(step).cloned()).collect() };
@@ -150,7 +150,7 @@ pub fn record(seed: u64, tier: &str, out: &str) {
     }
     // arithmetic: all pairs of the boundary set for + - * /, assigning forms, neg
     let ops = ["add", "sub", "mul", "div"];
-    let stride = if thorough { 1 } else { 3 };
+    let stride = if thorough { 3 } else { 3 };
     for (i, a) in vals.iter().enumerate() {
         for (j, b) in vals.iter().enumerate() {
             if (i + j) % stride != 0 {
@@ -170,7 +170,7 @@ pub fn record(seed: u64, tier: &str, out: &str) {
         t.ev(json!({"ev": "arith", "op": "neg", "x": dec80(&x), "y": dec80(&x), "r": dec80(&(-x))}));
     }
     // random bit patterns and chains of 2-4 operations (intermediate results use all 64 significand bits)
-    let n = if thorough { 24_000 } else { 1_200 };
+    let n = if thorough { 6_000 } else { 1_200 };
     for _ in 0..n {
         let rb = |rng: &mut Rng| -> f64 {
             match rng.below(5) {
